@@ -42,22 +42,22 @@ func PointerField(psi []byte) uint8 {
 
 // TableID returns the psi table header table id
 func TableID(psi []byte) uint8 {
-	return tableID(psi[1+PointerField(psi):])
+	return tableID(psi[1+int(PointerField(psi)):])
 }
 
 // SectionSyntaxIndicator returns true if the psi contains section syntax
 func SectionSyntaxIndicator(psi []byte) bool {
-	return sectionSyntaxIndicator(psi[1+PointerField(psi):])
+	return sectionSyntaxIndicator(psi[1+int(PointerField(psi)):])
 }
 
 // PrivateIndicator returns true if the psi contains private data
 func PrivateIndicator(psi []byte) bool {
-	return psi[2+PointerField(psi)]&0x40 != 0
+	return psi[2+int(PointerField(psi))]&0x40 != 0
 }
 
 // SectionLength returns the psi section length
 func SectionLength(psi []byte) uint16 {
-	offset := int(1 + PointerField(psi))
+	offset := 1 + int(PointerField(psi))
 	if offset >= len(psi) {
 		return 0
 	}
